@@ -1041,3 +1041,32 @@ def fresh_request_buffer(ctx):
            {'stores': [e.text() for e in vst], 'path_conditions': [[pretty(c) for c in e.pc] for e in vst],
             'in_place': [e.text() for e in inplace]},
            node=(vst[0].node if vst else ut.node), construct='self.v per request')
+
+
+def inline_helper_call(ctx, owner, expr, depth=2):
+    """`expr` with calls to helpers extracted later (functions not in the baseline list) whose body is a single
+    `return <e>` (after an optional docstring and single-definition locals) replaced by that expression:
+    `seed=self._draw_seed()` reads as `seed=int(self.rng.integers(2**31))`."""
+    import copy as _copy
+    from vstatic.argbind import resolve_callee
+    from vstatic.baseline import BASELINE_FUNCS
+    if depth <= 0 or expr is None:
+        return expr
+
+    class R(ast.NodeTransformer):
+        def visit_Call(self, n):
+            self.generic_visit(n)
+            try:
+                rc = resolve_callee(ctx.prog, owner, n)
+            except Exception:
+                rc = None
+            if rc is None or rc[0].short in BASELINE_FUNCS or not isinstance(rc[0].node, ast.FunctionDef):
+                return n
+            body = [s for s in rc[0].node.body if not (isinstance(s, ast.Expr) and isinstance(s.value, ast.Constant))]
+            if not body or not isinstance(body[-1], ast.Return) or body[-1].value is None:
+                return n
+            if any(not isinstance(s, ast.Assign) for s in body[:-1]):
+                return n
+            e = inline_locals(rc[0].node, body[-1].value)
+            return inline_helper_call(ctx, rc[0], e, depth - 1)
+    return R().visit(_copy.deepcopy(expr))
